@@ -248,6 +248,11 @@ func (c *FnCtx) callYield(st *State, call *ast.CallExpr) []*Term {
 	if g := st.guard(); !isLit(g, "true") {
 		ny = mkIte(g, ny, y)
 	}
+	ny = c.nameSlice(st, ny, "yielded").withGo(y.GoT)
+	st.assume(mkEq(c.sliceAt(ny, n), v))
+	if isLit(st.guard(), "true") {
+		c.appendContainsFacts(st, ny, y, []*Term{v})
+	}
 	st.ghost["$yielded"] = ny
 	if c.log != nil {
 		c.log.ghosts = true
